@@ -15,6 +15,10 @@ claimed={
         "That `used` is exactly the set of sources of the types visited by solve is part of solve's contract, which is not yet verified (the claim here is about the reporting function)."),
  "C09":("funcOutput is proved to implement the signature decision table of the statement over the full domain of result tuples; inject is proved to reach code generation only if every call that returns an error/cleanup is matched by the injector's signature (call-site precondition of injectPass), and to reject only then.",
         "Duplicate-parameter / duplicate-field rejection (processFuncProvider, processStruct*Provider) is not yet under contract; solve's interface contract is assumed in inject."),
+ "C17":("genCmd.Execute is proved to return 0 exactly when no result carries errors and no write failed, to attempt the write of every result with content regardless of earlier failures, and to write nothing but the OutputPath of results with content; diff/check/show Execute are proved never to reach a file-writing function; diff's status is 1 only after a diff was printed, 2 exactly when the comparison could not be completed, and every non-zero status is preceded by a log line. Ghost counters model log lines, stdout lines and WriteFile calls.",
+        "Generate's OutputPath = <dir>/<prefix>wire_gen.go is not part of this check; os.Exit / subcommands dispatch / flag parsing are outside; a result with both Errs and Content (format.Source failure) is written and reported as failure (the statement's 'analysis fails' is read as: no Content). lib.spec lists the writing functions (ioutil.WriteFile); library functions without an entry are assumed not to write."),
+ "C18":("The wire-side conditions: load always passes -tags=wireinject (plus the user's tags), LoadAllSyntax, the caller's dir and env; frame puts the generated-code marker, the go:generate line and `//+build !wireinject` before the package clause of every non-empty output; Commit is a single whole-file WriteFile of Content and writes nothing for empty content.",
+        "The crux is assumed, not proved: the loader, given these flags, ignores every file constrained by !wireinject whatever it contains; determinism of the output for fixed loader results is C16 (not yet claimed)."),
 }
 reason_pending="contracts for this property are not yet discharged on the unchanged tree (work in progress); no check is registered until its obligations verify"
 man={"version":1,
